@@ -19,6 +19,7 @@
 //! * `float-conv` proptest floats for from_f64/from_f32 of the five fixed types (ties, neighbours, arbitrary bit patterns).
 //! * `ot-round`   proptest floats for every `write_fonts::OtRound` impl.
 //! * `construct`  proptest u32/i32/i64/usize for the saturating / checked 24-bit constructors and 64-bit round trips.
+//! * `float-limits` deterministic inputs at and beyond MIN/MAX of the five fixed types (saturation), +-inf, +-largest float.
 //! * `below-half` regression stage: the ten inputs `+-pred(0.5)/ONE` of from_f32/from_f64 (x*ONE + 0.5 used to double-round).
 use font_types::{
     BigEndian, F26Dot6, F2Dot14, F4Dot12, F6Dot10, FWord, Fixed, GlyphId, GlyphId16, Int24, LongDateTime, MajorMinor, NameId,
@@ -203,17 +204,17 @@ macro_rules! ord_chk {
     }};
 }
 
-/// `got` must be a nearest representable raw value to the float `m*2^(e)` scaled by 2^fb (both candidates accepted on an
-/// exact half). Ok(None): outside the domain (nearest value not representable); Ok(Some(tie)).
+/// `got` must be a nearest representable raw value to the float `m*2^(e)` scaled by 2^fb: both candidates are accepted on an
+/// exact half; beyond the type's range the nearest representable value is MIN / MAX (saturation, also for +-inf).
+/// Returns (exact half, saturated).
 #[inline(always)]
-fn from_float_chk(name: &str, fb: i32, min: i128, max: i128, m: i128, e: i32, got: i128, input: impl Fn() -> String) -> Result<Option<bool>, Fail> {
-    let (lo, hi) = nearest_ints(m, e + fb);
-    if lo < min || hi > max {
-        return Ok(None);
-    }
-    chk!(got >= lo && got <= hi, "from_float-not-nearest", "{name}::from_float({}) = raw {got}, nearest representable raw value is {lo}{}",
-        input(), if lo != hi { format!(" or {hi} (exact half)") } else { String::new() });
-    Ok(Some(lo != hi))
+fn from_float_chk(name: &str, fb: i32, min: i128, max: i128, m: i128, e: i32, got: i128, input: impl Fn() -> String) -> Result<(bool, bool), Fail> {
+    let (lo0, hi0) = nearest_ints(m, e + fb);
+    let (lo, hi) = (lo0.clamp(min, max), hi0.clamp(min, max));
+    let sat = lo != lo0 || hi != hi0;
+    chk!(got >= lo && got <= hi, "from_float-not-nearest", "{name}::from_float({}) = raw {got}, nearest representable raw value is {lo}{}{}",
+        input(), if lo != hi { format!(" or {hi} (exact half)") } else { String::new() }, if sat { " (input beyond the range: saturates)" } else { "" });
+    Ok((lo != hi, sat))
 }
 
 // ---------------------------------------------------------------------------------------------------------------------
@@ -450,7 +451,7 @@ macro_rules! fixed32 {
             }
             let (m, e) = decomp(xf);
             let got = $T::from_f64(xf).to_bits() as i128;
-            if from_float_chk(name, $fb, i32::MIN as i128, i32::MAX as i128, m, e, got, || format!("{xf:e} = (k+1/2{d:+}ulp)/2^{}, k={x}", $fb))? == Some(true) {
+            if from_float_chk(name, $fb, i32::MIN as i128, i32::MAX as i128, m, e, got, || format!("{xf:e} = (k+1/2{d:+}ulp)/2^{}, k={x}", $fb))?.0 {
                 $ties += 1;
             }
         }
@@ -879,7 +880,28 @@ fn float_strategy() -> impl Strategy<Value = FloatCase> {
                 FloatCase { ty, bits: ((neg as u64) << 31) | (e << 23) | (mant & ((1 << 23) - 1)) }
             }
         });
-        prop_oneof![3 => built, 1 => arbitrary]
+        // (MIN or MAX) + j/4 raw units, moved by a few ulps: around and just beyond the limits
+        let near_limit = (any::<bool>(), -64i64..=64, -3i64..=3).prop_map(move |(top, j, ulps)| {
+            let x = ((if top { max } else { min }) as f64 + j as f64 / 4.0) / (1i64 << fb) as f64; // exact
+            if wide {
+                FloatCase { ty, bits: (x.to_bits() as i64 + ulps) as u64 }
+            } else {
+                FloatCase { ty, bits: ((x as f32).to_bits() as i64 + ulps) as u64 & 0xFFFF_FFFF }
+            }
+        });
+        // finite floats and infinities of any magnitude at or above the type's range
+        let beyond = (any::<bool>(), any::<u64>(), prop_oneof![3 => 0i32..8, 2 => 8i32..2000]).prop_map(move |(neg, mant, up)| {
+            if wide {
+                let e = (1023 + int_bits - 2 + up).min(0x7FF) as u64;
+                let mant = if e == 0x7FF { 0 } else { mant & ((1 << 52) - 1) };
+                FloatCase { ty, bits: ((neg as u64) << 63) | (e << 52) | mant }
+            } else {
+                let e = (127 + int_bits - 2 + up).min(0xFF) as u64;
+                let mant = if e == 0xFF { 0 } else { mant & ((1 << 23) - 1) };
+                FloatCase { ty, bits: ((neg as u64) << 31) | (e << 23) | mant }
+            }
+        });
+        prop_oneof![6 => built, 2 => arbitrary, 2 => near_limit, 1 => beyond]
     })
 }
 
@@ -887,21 +909,21 @@ fn test_float(c: &FloatCase, stats: &Stats) -> CaseResult {
     let fb = FB[c.ty as usize % 5];
     let (name, got, m, e, min, max, shown, known) = if c.ty < 2 {
         let x = f64::from_bits(c.bits);
-        if !x.is_finite() {
-            stats.class("float:non_finite_skipped");
+        if x.is_nan() {
+            stats.class("float:nan_skipped");
             return Ok(());
         }
-        let (m, e) = decomp(x);
+        let (m, e) = if x.is_infinite() { (if x < 0.0 { -BIG } else { BIG }, 0) } else { decomp(x) };
         let known = (x * (1i64 << fb) as f64).abs() == pred_half64();
         let (name, got) = if c.ty == 0 { ("Fixed", Fixed::from_f64(x).to_bits() as i128) } else { ("F26Dot6", F26Dot6::from_f64(x).to_bits() as i128) };
         (name, got, m, e, i32::MIN as i128, i32::MAX as i128, format!("{x:e}"), known)
     } else {
         let x = f32::from_bits(c.bits as u32);
-        if !x.is_finite() {
-            stats.class("float:non_finite_skipped");
+        if x.is_nan() {
+            stats.class("float:nan_skipped");
             return Ok(());
         }
-        let (m, e) = decomp(x as f64);
+        let (m, e) = if x.is_infinite() { (if x < 0.0 { -BIG } else { BIG }, 0) } else { decomp(x as f64) };
         let known = (x * (1i64 << fb) as f32).abs() == pred_half32();
         let (name, got) = match c.ty {
             2 => ("F2Dot14", F2Dot14::from_f32(x).to_bits() as i128),
@@ -913,27 +935,63 @@ fn test_float(c: &FloatCase, stats: &Stats) -> CaseResult {
     if known {
         stats.class("from_float:one_ulp_below_half_inputs");
     }
-    match from_float_chk(name, fb, min, max, m, e, got, || shown.clone())? {
-        None => stats.class("float:nearest_not_representable_skipped"),
-        Some(tie) => {
-            stats.class(&format!("float:{name}"));
-            if tie {
-                stats.class("float:exact_half");
-                let away = if m > 0 { nearest_ints(m, e + fb).1 } else { nearest_ints(m, e + fb).0 };
-                stats.class(if got == away { "float:exact_half_resolved_away_from_zero" } else { "float:exact_half_resolved_toward_zero" });
-            }
-            if e + fb < -60 {
-                stats.class("float:tiny");
-            }
-            if tie || m < 0 {
-                nontrivial_sampled(stats, "float", hash_json(c));
-                if S_FLOAT.load(std::sync::atomic::Ordering::Relaxed) < 2 && sample_slot(&S_FLOAT, stats) {
-                    stats.sample(json!({"stage": "float-conv", "type": name, "input": shown, "raw_result": got as i64, "exact_half": tie}));
-                }
-            }
+    let (tie, sat) = from_float_chk(name, fb, min, max, m, e, got, || shown.clone())?;
+    stats.class(&format!("float:{name}"));
+    if sat {
+        stats.class(if m < 0 { "float:saturates_to_MIN" } else { "float:saturates_to_MAX" });
+    } else if got == min || got == max {
+        stats.class("float:in_range_result_is_MIN_or_MAX");
+    }
+    if tie {
+        stats.class("float:exact_half");
+        let away = if m > 0 { nearest_ints(m, e + fb).1 } else { nearest_ints(m, e + fb).0 };
+        stats.class(if got == away { "float:exact_half_resolved_away_from_zero" } else { "float:exact_half_resolved_toward_zero" });
+    }
+    if e + fb < -60 {
+        stats.class("float:tiny");
+    }
+    if tie || m < 0 {
+        nontrivial_sampled(stats, "float", hash_json(c));
+        if S_FLOAT.load(std::sync::atomic::Ordering::Relaxed) < 2 && sample_slot(&S_FLOAT, stats) {
+            stats.sample(json!({"stage": "float-conv", "type": name, "input": shown, "raw_result": got as i64, "exact_half": tie, "saturated": sat}));
         }
     }
     Ok(())
+}
+
+/// Deterministic inputs at and beyond the limits of each type: (MIN or MAX) + j/4 raw units for j in -12..=12, each moved by
+/// -2..2 float ulps; 2*MIN, 2*MAX, +-2^40 raw units, +-largest finite float, +-infinity.
+fn limit_cases() -> Vec<FloatCase> {
+    let mut v = vec![];
+    for ty in 0u8..5 {
+        let wide = ty < 2;
+        let fb = FB[ty as usize];
+        let one = (1i64 << fb) as f64;
+        let (min, max) = if wide { (i32::MIN as f64, i32::MAX as f64) } else { (i16::MIN as f64, i16::MAX as f64) };
+        let mut push = |x: f64, ulps: i64| {
+            if wide {
+                v.push(FloatCase { ty, bits: (x.to_bits() as i64 + ulps) as u64 });
+            } else {
+                v.push(FloatCase { ty, bits: ((x as f32).to_bits() as i64 + ulps) as u64 & 0xFFFF_FFFF });
+            }
+        };
+        for base in [min, max] {
+            for j in -12i64..=12 {
+                for u in -2i64..=2 {
+                    push((base + j as f64 / 4.0) / one, u); // exact: <= 35 (f64) / 19 (f32) significant bits
+                }
+            }
+            push(2.0 * base / one, 0);
+            push(base * 3.0 / one, 0);
+        }
+        for s in [-1.0f64, 1.0] {
+            push(s * (1u64 << 40) as f64, 0);
+            push(s * 1e30, 0);
+            push(s * if wide { f64::MAX } else { f32::MAX as f64 }, 0);
+            push(s * f64::INFINITY, 0);
+        }
+    }
+    v
 }
 
 /// the ten inputs +-pred(1/2)/ONE
@@ -1155,7 +1213,7 @@ fn main() {
          low half-words in the thorough tier, x 26 boundary + 4096 strided low half-words in quick, the 12 blocks around 0, MIN and MAX always complete); arith-grid: one case = \
          one grid value a, checked against every (b) and (b,c) of the boundary grid (0, +-1, +-0x7FFF, +-0x8000, +-0x8001, +-0xFFFF, +-0x10000, 2^k, 2^k+-1, 3*2^k, 5*2^k, MIN, MAX, ...). \
          Proptest stages: operands uniform / small / grid+-delta / constructed exact halves (a*b = odd*2^15, a = e(2q+1) & b = e*2^17, c = 2a & b odd) and the same moved by one unit; \
-         floats built as (k + j/256)/ONE moved by -3..3 ulp or arbitrary in-range bit patterns. Non-trivial: the operand tuple / input contains a negative value or an exact half-way \
+         floats built as (k + j/256)/ONE moved by -3..3 ulp, arbitrary in-range bit patterns, (MIN|MAX + j/4)/ONE +- ulps, and arbitrary magnitudes beyond the range incl. +-inf (expected: saturation to MIN/MAX = the nearest representable value). Non-trivial: the operand tuple / input contains a negative value or an exact half-way \
          case (blocks of the exhaustive stages always do: one hash per block; proptest stages: one hash in eight is kept, `*:nontrivial_cases` counts all). Binary results are compared only when the exact result is representable in 32 bits.",
     );
     ctx.assume("expected values: big-endian two's complement decoding and value = bits/2^fraction_bits per the OpenType data types, exact i128 / dyadic rational arithmetic in the harness; rustc's IEEE-754 float<->int `as` casts are trusted only for exactly representable values");
@@ -1183,6 +1241,8 @@ fn main() {
 
     // floats
     ctx.prop_stage("float-conv", Isolation::Threads, ctx.n(2_000_000, 15_000_000), float_strategy, test_float);
+    let lim = limit_cases();
+    ctx.index_stage("float-limits", Isolation::Threads, lim.len() as u64, |i| lim[i as usize].clone(), test_float);
     ctx.index_stage("below-half", Isolation::Threads, 10, |i| FloatCase { ty: (i / 2) as u8, bits: i % 2 }, test_below_half);
     ctx.prop_stage("ot-round", Isolation::Threads, ctx.n(2_000_000, 15_000_000), ot_strategy, test_ot);
     ctx.prop_stage("construct", Isolation::Threads, ctx.n(500_000, 5_000_000), cons_strategy, test_cons);
